@@ -96,8 +96,18 @@ pub enum Expect {
         /// 3 = health endpoint, 1 = GET /work, 2 = PUT /work
         op: u64,
     },
-    /// Echo API: the handler must report exactly this canonical value.
-    Echo { op: String, canon: serde_json::Value },
+    /// Echo API: the handler must report exactly this canonical value and
+    /// this request context.
+    Echo {
+        op: String,
+        canon: serde_json::Value,
+        method: String,
+        target: String,
+        /// header fields as sent (names lower-cased)
+        headers: Vec<(String, Blob)>,
+        /// multipart: 0/1 bare boundary, 2 quoted, 3 followed by a parameter
+        boundary_style: u8,
+    },
     /// Must be refused with a 4xx and never reach a handler.
     Refuse { why: String },
     /// Sink API body-limit case.
@@ -109,6 +119,12 @@ pub enum Expect {
         /// for typed bodies shorter than any valid document
         may_be_invalid: bool,
         streaming: bool,
+        /// what the handler must report as delivered length
+        payload_len: usize,
+        /// chunked framing with a chunk boundary exactly at the limit
+        chunk_at_limit: bool,
+        /// largest chunk of a chunked body (0 = Content-Length framing)
+        max_chunk: usize,
     },
     /// Err API: scripted error.
     ErrScript {
